@@ -573,6 +573,13 @@ class PRandomImpulseSequence(PStochasticPattern):
     def __repr__(self):
         return ("PRandomImpulseSequence(%s, %s)" % (self.probability, self.length))
 
+    def reset(self):
+        super().reset()
+        self.current_length = 0
+        self.values = []
+        self.pos = 0
+        self.every_index = 0
+
     def generate(self):
         probability = Pattern.value(self.probability)
         self.current_length = Pattern.value(self.length)
